@@ -7,7 +7,9 @@
 //!   sim selftest [n]                       determinism proof: every seed twice, digests compared
 
 mod checks;
+mod compat;
 mod conc;
+mod crash;
 mod fault;
 mod http;
 mod model;
@@ -116,7 +118,7 @@ fn worker(args: &[String]) -> i32 {
             let seed = job_seed(base_seed, &job.name, idx);
             agg.rep.first_seed = agg.rep.first_seed.min(seed);
             agg.rep.last_seed = seed;
-            let p = plan::gen(&job.kind, seed, thorough);
+            let p = plan::gen(&job.kind, seed, idx, thorough);
             let mut out = plan::exec(&p);
             for v in &out.violations {
                 for pr in &v.props {
@@ -402,7 +404,7 @@ fn selftest(args: &[String]) -> i32 {
             let mut x = 0u64;
             for idx in 0..n {
                 let seed = job_seed(base, &job.name, idx);
-                let p = plan::gen(&job.kind, seed, false);
+                let p = plan::gen(&job.kind, seed, idx, false);
                 let a = plan::exec(&p);
                 let b = plan::exec(&p);
                 if a.digest != b.digest || a.violations.len() != b.violations.len() {
@@ -434,6 +436,19 @@ fn main() {
         Some("worker") if args.len() >= 7 => worker(&args[1..]),
         Some("replay") if args.len() >= 2 => replay(&args[1]),
         Some("selftest") => selftest(&args[1..]),
+        Some("gen-corpus") if args.len() >= 3 => {
+            quiet_panics();
+            match compat::gen_corpus(Path::new(&args[1]), &args[2]) {
+                Ok(n) => {
+                    println!("wrote {n} fixtures to {}", args[1]);
+                    0
+                }
+                Err(e) => {
+                    eprintln!("HARNESS: corpus generation failed: {e}");
+                    2
+                }
+            }
+        }
         _ => {
             eprintln!("usage: sim check <Cxx> <quick|thorough> | sim replay <file> | sim selftest [n]");
             2
